@@ -15,44 +15,7 @@
 (*  - Str   : TLC strings (only equality is used on them here; the string  *)
 (*            operators live in Strings.tla on code-point sequences).      *)
 (***************************************************************************)
-EXTENDS Integers, Sequences, FiniteSets, TLC
-
-CONSTANTS NULL, UNDEF, ANY     \* ANY: some non-null value the specification does not compute (transcendental functions): the two back ends are compared with each other
-
-Bound == 1000000
-
-IsN(v) == v = NULL
-IsU(v) == v = UNDEF
-IsAny(v) == v = ANY
-
-AbsI(a) == IF a < 0 THEN -a ELSE a
-SgnI(a) == IF a < 0 THEN -1 ELSE IF a = 0 THEN 0 ELSE 1
-MinI(a, b) == IF a <= b THEN a ELSE b
-MaxI(a, b) == IF a >= b THEN a ELSE b
-
-ClampI(v) == IF v > Bound \/ v < -Bound THEN UNDEF ELSE v
-
-(* strictness wrappers: UNDEF wins over NULL, NULL propagates *)
-Strict1(a, r) == IF IsU(a) THEN UNDEF ELSE IF IsN(a) THEN NULL ELSE r
-Strict2(a, b, r) == IF IsU(a) \/ IsU(b) THEN UNDEF ELSE IF IsN(a) \/ IsN(b) THEN NULL ELSE r
-
----------------------------------------------------------------------------
-(* integer arithmetic *)
-AddV(a, b) == IF IsU(a) \/ IsU(b) THEN UNDEF ELSE IF IsN(a) \/ IsN(b) THEN NULL ELSE ClampI(a + b)
-SubV(a, b) == IF IsU(a) \/ IsU(b) THEN UNDEF ELSE IF IsN(a) \/ IsN(b) THEN NULL ELSE ClampI(a - b)
-MulV(a, b) == IF IsU(a) \/ IsU(b) THEN UNDEF ELSE IF IsN(a) \/ IsN(b) THEN NULL
-              ELSE IF AbsI(a) > 1000 \/ AbsI(b) > 1000 THEN UNDEF ELSE a * b
-NegV(a)    == IF IsU(a) THEN UNDEF ELSE IF IsN(a) THEN NULL ELSE -a
-AbsV(a)    == IF IsU(a) THEN UNDEF ELSE IF IsN(a) THEN NULL ELSE AbsI(a)
-
-(* `//` truncates toward zero, `%` takes the sign of the dividend          *)
-(* (ops/ops/arithmetic.py, docstrings of __floordiv__ and __mod__).        *)
-TDivI(a, b) == LET q == AbsI(a) \div AbsI(b) IN IF (a < 0) # (b < 0) THEN -q ELSE q
-TModI(a, b) == a - b * TDivI(a, b)
-FloorDivV(a, b) == IF IsU(a) \/ IsU(b) THEN UNDEF ELSE IF IsN(a) \/ IsN(b) THEN NULL
-                   ELSE IF b = 0 THEN UNDEF ELSE TDivI(a, b)
-ModV(a, b) == IF IsU(a) \/ IsU(b) THEN UNDEF ELSE IF IsN(a) \/ IsN(b) THEN NULL
-              ELSE IF b = 0 THEN UNDEF ELSE TModI(a, b)
+EXTENDS ValuesCore
 
 ---------------------------------------------------------------------------
 (* exact rationals for Float *)
@@ -79,8 +42,6 @@ RatDivV(a, b) == IF IsU(a) \/ IsU(b) THEN UNDEF ELSE IF IsN(a) \/ IsN(b) THEN NU
                  ELSE Rat(a.n * b.d, a.d * b.n)
 RECURSIVE RatPow(_, _)
 RatPow(a, k) == IF k = 0 THEN RatOfInt(1) ELSE RatMulV(a, RatPow(a, k - 1))
-RatLt(a, b) == a.n * b.d < b.n * a.d
-RatEq(a, b) == a.n = b.n /\ a.d = b.d
 (* Int / Int -> Float *)
 TrueDivV(a, b) == IF IsU(a) \/ IsU(b) THEN UNDEF ELSE IF IsN(a) \/ IsN(b) THEN NULL
                   ELSE IF b = 0 THEN UNDEF ELSE Rat(a, b)
@@ -88,45 +49,5 @@ TrueDivV(a, b) == IF IsU(a) \/ IsU(b) THEN UNDEF ELSE IF IsN(a) \/ IsN(b) THEN N
 RatTrunc(r) == TDivI(r.n, r.d)
 RatFloor(r) == IF r.n >= 0 \/ r.n % r.d = 0 THEN TDivI(r.n, r.d) ELSE TDivI(r.n, r.d) - 1
 RatCeil(r)  == IF r.n <= 0 \/ r.n % r.d = 0 THEN TDivI(r.n, r.d) ELSE TDivI(r.n, r.d) + 1
-
----------------------------------------------------------------------------
-(* three-valued logic (ops/ops/logical.py truth tables) *)
-And3(a, b) == IF IsU(a) \/ IsU(b) THEN UNDEF
-              ELSE IF a = FALSE \/ b = FALSE THEN FALSE
-              ELSE IF IsN(a) \/ IsN(b) THEN NULL ELSE TRUE
-Or3(a, b)  == IF IsU(a) \/ IsU(b) THEN UNDEF
-              ELSE IF a = TRUE \/ b = TRUE THEN TRUE
-              ELSE IF IsN(a) \/ IsN(b) THEN NULL ELSE FALSE
-Xor3(a, b) == IF IsU(a) \/ IsU(b) THEN UNDEF ELSE IF IsN(a) \/ IsN(b) THEN NULL ELSE a # b
-Not3(a)    == IF IsU(a) THEN UNDEF ELSE IF IsN(a) THEN NULL ELSE ~a
-IsTrue(v)  == v = TRUE
-
----------------------------------------------------------------------------
-(* comparisons: null-propagating.  `ty` selects the order relation.        *)
-LtRaw(ty, a, b) == CASE ty = "int"   -> a < b
-                     [] ty = "bool"  -> (a = FALSE /\ b = TRUE)
-                     [] ty = "float" -> RatLt(a, b)
-                     [] OTHER        -> FALSE
-EqRaw(ty, a, b) == IF ty = "float" THEN RatEq(a, b) ELSE a = b
-
-EqV(ty, a, b) == Strict2(a, b, EqRaw(ty, a, b))
-NeV(ty, a, b) == Strict2(a, b, ~EqRaw(ty, a, b))
-LtV(ty, a, b) == Strict2(a, b, LtRaw(ty, a, b))
-LeV(ty, a, b) == Strict2(a, b, LtRaw(ty, a, b) \/ EqRaw(ty, a, b))
-GtV(ty, a, b) == Strict2(a, b, LtRaw(ty, b, a))
-GeV(ty, a, b) == Strict2(a, b, LtRaw(ty, b, a) \/ EqRaw(ty, a, b))
-
-(* equality of two values as *grouping keys / union rows*: nulls are equal *)
-SameKey(ty, a, b) == IF IsN(a) \/ IsN(b) THEN IsN(a) /\ IsN(b) ELSE EqRaw(ty, a, b)
-
-(***************************************************************************)
-(* Ordering used by arrange / arrange= :  key spec o = [desc, nl] with     *)
-(* nl \in {"first", "last"}.  `nulls_first` / `nulls_last` place nulls     *)
-(* regardless of `descending` (ops/ops/markers.py).                        *)
-(***************************************************************************)
-Before1(ty, a, b, desc, nl) ==
-    IF IsN(a) THEN (~IsN(b) /\ nl = "first")
-    ELSE IF IsN(b) THEN nl = "last"
-    ELSE IF desc THEN LtRaw(ty, b, a) ELSE LtRaw(ty, a, b)
 
 =============================================================================
